@@ -457,3 +457,178 @@ def instance_partial_evaluate():
             decreases self.removed_constraints.len() - __i3''')],
                 proofs=[(('before', r'let mut __i2: usize = 0;'), 'let ghost mid1 = *self;\n        '),
                         (('before', r'let mut __i3: usize = 0;'), 'let ghost mid2 = *self;\n        ')])
+
+
+# ---------------------------------------------------------------- C03: Quadratic::partial_evaluate (entry API, swap_remove, Linear::new)
+QPE_HELPERS = '''// ---- helpers of Quadratic::partial_evaluate (declared substitutions; T4 std contracts) ----
+// `self.linear.as_ref().map_or(0.0, |l| l.constant)`
+#[verifier::external_body] pub fn opt_linear_constant(l: &Option<Linear>) -> (r: F64)
+    ensures match *l { Some(x) => r == x.constant, None => r@ == XR::Fin(0real) }
+{ unimplemented!() }
+// `self.linear.iter().flat_map(|l| l.terms.iter())`: the terms of the linear part if there is one, in order
+#[verifier::external_body] pub fn opt_linear_terms(l: &Option<Linear>) -> (r: Vec<LinearTerm>)
+    ensures r@ == opt_terms(*l)
+{ unimplemented!() }
+// BTreeMap<u64, f64>::into_iter(): the entries in ascending key order, each exactly once
+#[verifier::external_body] pub fn btree_into_pairs(m: BTreeMap<u64, F64>) -> (r: Vec<(u64, F64)>)
+    ensures r.len() == m@.len(),
+        forall|i: int| 0 <= i < r.len() ==> m@.contains_key((#[trigger] r[i]).0) && m@[r[i].0] == r[i].1,
+        forall|i: int, j: int| 0 <= i < j < r.len() ==> (#[trigger] r[i]).0 < (#[trigger] r[j]).0,
+        forall|k: u64| #[trigger] m@.contains_key(k) ==> exists|i: int| 0 <= i < r.len() && (#[trigger] r[i]).0 == k,
+{ unimplemented!() }
+'''
+
+
+def linear_new_stub():
+    """Linear::new as an assumed callee: the header of the unit verified in C02 / C12, body replaced"""
+    from vx.units import algebra as al
+    h = al.linear_new().header
+    h = h.replace('#[verifier::loop_isolation(false)]\n', '')
+    return 'impl Linear {\n    #[verifier::external_body] ' + h + '\n    { unimplemented!() }\n}\n'
+
+
+def quadratic_partial_evaluate():
+    FIN = 'quadratic_fin(*old(self)) && state_fin(state.entries@)'
+    Q0 = '*old(self)'
+    COMMON_INV = '''forall|k: u64| #[trigger] used@.contains(k) ==> state.entries@.contains_key(k),
+                forall|k: u64| #[trigger] gm.contains_key(k) ==> !state.entries@.contains_key(k),
+                linear@.dom() =~= gm.dom(),'''
+    final_proof = '''proof {
+            let st = state.entries@; let o = %s; let n = *self;
+            let fo = Function { function: Some(FunctionEnum::Quadratic(o)) }; let fnw = Function { function: Some(FunctionEnum::Quadratic(n)) };
+            assert(quad_n(o) == o.rows.len()); assert(quad_n(n) == n.rows.len());
+            // ids
+            assert(quadratic_ids(n).subset_of(quadratic_ids(o)) && dom_disjoint(quadratic_ids(n), st)) by {
+                assert forall|k: u64| quadratic_ids(n).contains(k) implies quadratic_ids(o).contains(k) && !st.contains_key(k) by {
+                    if quad_ids(n.rows@, n.columns@, n.rows.len() as int).contains(k) {
+                        assert(n.rows@ == rows1 && n.columns@ == cols1);
+                        lemma_unfixed_ids(rows1, cols1, st, k);
+                    } else {
+                        assert(n.linear is Some);
+                        lemma_lin_ids_mem(n.linear->Some_0.terms@, n.linear->Some_0.terms.len() as int, k);
+                        let j = choose|j: int| 0 <= j < n.linear->Some_0.terms.len() && (#[trigger] n.linear->Some_0.terms@[j]).id == k;
+                        assert(gm.contains_key(k));
+                    }
+                }
+            }
+            assert forall|k: u64| used@.contains(k) <==> ids_in(quadratic_ids(o), st).contains(k) by {
+                if quadratic_ids(o).contains(k) && st.contains_key(k) && !used@.contains(k) {
+                    assert(!gm.dom().contains(k));
+                    assert(quad_ids(n.rows@, n.columns@, n.rows.len() as int).contains(k));
+                    assert(n.rows@ == rows1 && n.columns@ == cols1);
+                    lemma_unfixed_ids(rows1, cols1, st, k);
+                }
+                if used@.contains(k) { assert(used@.union(gm.dom()).union(quad_ids(n.rows@, n.columns@, n.rows.len() as int)).contains(k)); }
+            }
+            assert(used@ =~= ids_in(quadratic_ids(o), st));
+            if %s {
+                assert forall|m: Map<u64, F64>| #![trigger fn_val(fnw, m)] agree(st, m) implies fn_val(fnw, m) == fn_val(fo, m) - quad_pe_rem(o, st, m) by {
+                    assert(rv(constant) + msum(gm, m) + quad_sum(n.rows@, n.columns@, n.values@, n.rows.len() as int, m) == quadratic_val(o, m));
+                }
+            }
+            assert(pe_rel(fo, fnw, st, used@));
+        }
+        ''' % (Q0, FIN)
+    return Unit('Quadratic::partial_evaluate', E, 'partial_evaluate', impl=r'impl Evaluate for Quadratic \{',
+                sig='fn partial_evaluate(&mut self, state: &State) -> Result<BTreeSet<u64>>', wrap=('impl Quadratic {', '}'),
+                header='''#[verifier::loop_isolation(false)]
+pub fn partial_evaluate(&mut self, state: &State) -> (r: %s)
+    // fails exactly on COO arrays of different lengths, leaving the function untouched; otherwise the relation shared by every partial_evaluate: no fixed variable is
+    // mentioned any more, the returned set is exactly the fixed variables that occurred, and at every assignment that agrees with the fixed part the value is the old value
+    // minus quad_pe_rem = the entries with |v| <= EPSILON of the exact linear part qpe_lin(old, state) (what Linear::new drops)
+    ensures
+        r is Ok <==> (old(self).rows.len() == old(self).columns.len() && old(self).rows.len() == old(self).values.len()),
+        r is Err ==> *final(self) == *old(self),
+        r is Ok ==> pe_rel(Function { function: Some(FunctionEnum::Quadratic(*old(self))) }, Function { function: Some(FunctionEnum::Quadratic(*final(self))) }, state.entries@, r->Ok_0@),''' % PE_RES,
+                rsubs=[(r'let mut used = BTreeSet::new\(\);', 'let mut used: BTreeSet<u64> = BTreeSet::new();', 1),
+                       (r'let mut linear = BTreeMap::new\(\);', 'let mut linear: BTreeMap<u64, F64> = BTreeMap::new();', 1),
+                       (r'self\.linear\.as_ref\(\)\.map_or\(lit_0p0\(\), \|l\| l\.constant\)', 'opt_linear_constant(&self.linear)', 1),
+                       (r'self\.linear\.iter\(\)\.flat_map\(\|l\| l\.terms\.iter\(\)\)', 'opt_linear_terms(&self.linear)', 1),
+                       # R20c: the listing handed to Linear::new is bound by a `let` so that the proof can name it
+                       (r'self\.linear = Some\(Linear::new\(linear\.into_iter\(\), constant\)\);',
+                        'let __l = btree_into_pairs(linear); let ghost lst = __l@; let __new = Linear::new(__l, constant); self.linear = Some(__new);', 1)],
+                loops=[dict(kind='for', it='it_1', rebind='__e',
+                            body_proof=' proof { assert(*__e == lt[it_1.index@ as int]); }',
+                            inv='''invariant
+                __h1@ == lt, lt == opt_terms(old(self).linear), *self == *old(self),
+                ''' + COMMON_INV + '''
+                lin_ids(lt, it_1.index@ as int) =~= used@.union(gm.dom()),
+                gm == lacc(lt, it_1.index@ as int, state.entries@),
+                %s ==> kmatches(linear@, gm) && fin(constant) && forall|m: Map<u64, F64>| #![trigger msum(gm, m)] agree(state.entries@, m) ==>
+                    rv(constant) + msum(gm, m) == opt_const(old(self).linear) + lin_sum(lt, it_1.index@ as int, m),''' % FIN),
+                       dict(kind='while', inv='''invariant
+                0 <= i <= self.rows.len(), self.rows.len() == self.columns.len(), self.rows.len() == self.values.len(),
+                old(self).rows.len() == old(self).columns.len(), old(self).rows.len() == old(self).values.len(),
+                self.linear == old(self).linear,
+                unfixed(self.rows@, self.columns@, i as int, state.entries@),
+                ''' + COMMON_INV + '''
+                quadratic_ids(*old(self)) =~= used@.union(gm.dom()).union(quad_ids(self.rows@, self.columns@, self.rows.len() as int)),
+                qpe_run(self.rows@, self.columns@, self.values@, i as int, state.entries@, gm) == qpe_lin(*old(self), state.entries@),
+                %s ==> kmatches(linear@, gm) && fin(constant) && vals_fin(self.values@) && forall|m: Map<u64, F64>| #![trigger msum(gm, m)] agree(state.entries@, m) ==>
+                    rv(constant) + msum(gm, m) + quad_sum(self.rows@, self.columns@, self.values@, self.rows.len() as int, m) == quadratic_val(*old(self), m),
+            decreases self.rows.len() - i''' % FIN)],
+                proofs=[(('after', r'let mut constant = opt_linear_constant\(&self\.linear\);'), '''
+        let ghost lt = opt_terms(old(self).linear); let ghost mut gm: Map<u64, real> = Map::empty();
+        proof { assert forall|m: Map<u64, F64>| #![trigger msum(gm, m)] msum(gm, m) == 0real by { lemma_msum_empty(m); } }'''),
+                        # first loop, fixed term
+                        (('after', r'if let Some\(value\) = state\.entries\.get\(&term\.id\) \{\s*[^;{}]*;'), '''
+                proof { assert(agree(state.entries@, state.entries@)); }'''),
+                        # first loop, free term
+                        (('after', r'used\.insert\(term\.id\);\s*\} else \{\s*[^;{}]*;'), '''
+                proof { let g0 = gm; gm = bump(gm, term.id, rv(term.coefficient));
+                    assert forall|m: Map<u64, F64>| #![trigger msum(gm, m)] msum(gm, m) == msum(g0, m) + rv(term.coefficient) * sval(m, term.id) by { lemma_msum_bump(g0, m, term.id, rv(term.coefficient)); } }'''),
+                        # between the loops
+                        (('before', r'let mut i = 0;'), '''proof {
+            assert(lt.len() == 0 ==> lin_ids(lt, 0) =~= Set::<u64>::empty());
+            assert(quadratic_ids(*old(self)) =~= used@.union(gm.dom()).union(quad_ids(self.rows@, self.columns@, self.rows.len() as int)));
+        }
+        '''),
+                        # second loop: remember the arrays before the swap_removes
+                        (('before', r'match \(state\.entries\.get\(&row\), state\.entries\.get\(&column\)\)'), 'let ghost r0 = self.rows@; let ghost c0 = self.columns@; let ghost v0 = self.values@; let ghost g0 = gm; let ghost k0 = constant;\n            '),
+                        (('after', r'\(Some\(u\), None\) => \{\s*[^;{}]*;'), '''
+                    proof { gm = bump(gm, column, rv(value) * rv(*u)); }'''),
+                        (('after', r'\(None, Some\(v\)\) => \{\s*[^;{}]*;'), '''
+                    proof { gm = bump(gm, row, rv(value) * rv(*v)); }'''),
+                        (('before', r'i \+= 1;\s*continue;'), '''proof { assert(!state.entries@.contains_key(row) && !state.entries@.contains_key(column)); assert(row == self.rows[i as int] && column == self.columns[i as int]);
+                        assert(qpe_run(self.rows@, self.columns@, self.values@, i as int, state.entries@, gm) == qpe_run(self.rows@, self.columns@, self.values@, i as int + 1, state.entries@, gm)); }
+                    '''),
+                        (('before', r'continue;\s*\}\s*\}\s*self\.rows\.swap_remove'), '''proof {
+                        lemma_unfixed_step(self.rows@, self.columns@, i as int - 1, state.entries@);
+                        assert(qpe_run(self.rows@, self.columns@, self.values@, i as int, state.entries@, gm) == qpe_lin(*old(self), state.entries@)); }
+                    '''),
+                        (('before', r'if linear\.is_empty\(\)'), '''proof { assert(i == self.rows.len()); }
+        let ghost rows1 = self.rows@; let ghost cols1 = self.columns@;
+        proof { assert(unfixed(rows1, cols1, rows1.len() as int, state.entries@)); }
+        '''),
+                        (('after', r'self\.values\.swap_remove\(i\);'), '''
+            proof {
+                let st = state.entries@; let ii = i as int;
+                assert(self.rows@ =~= swap_rm(r0, ii) && self.columns@ =~= swap_rm(c0, ii) && self.values@ =~= swap_rm(v0, ii));
+                lemma_unfixed_swap(r0, c0, ii, st);
+                lemma_quad_ids_swap_removed(r0, c0, ii);
+                if %s {
+                    assert forall|m: Map<u64, F64>| #![trigger msum(gm, m)] agree(st, m) implies
+                        rv(constant) + msum(gm, m) + quad_sum(self.rows@, self.columns@, self.values@, self.rows.len() as int, m) == quadratic_val(*old(self), m) by {
+                        lemma_quad_swap_removed(r0, c0, v0, ii, m);
+                        assert(rv(k0) + msum(g0, m) + quad_sum(r0, c0, v0, r0.len() as int, m) == quadratic_val(*old(self), m));
+                        let a = rv(v0[ii]); let x = sval(m, r0[ii]); let y = sval(m, c0[ii]);
+                        if st.contains_key(r0[ii]) && st.contains_key(c0[ii]) { assert(m[r0[ii]] == st[r0[ii]] && m[c0[ii]] == st[c0[ii]]); }
+                        else if st.contains_key(r0[ii]) { assert(m[r0[ii]] == st[r0[ii]]); lemma_msum_bump(g0, m, c0[ii], a * x); assert((a * x) * y == a * x * y) by(nonlinear_arith); }
+                        else { assert(m[c0[ii]] == st[c0[ii]]); lemma_msum_bump(g0, m, r0[ii], a * y); assert((a * y) * x == a * x * y) by(nonlinear_arith); }
+                    }
+                }
+            }''' % FIN),
+                        (('before', r'self\.linear = None;'), '''proof { assert(gm.dom() =~= Set::<u64>::empty()); assert(gm =~= Map::<u64, real>::empty());
+                assert forall|m: Map<u64, F64>| #![trigger msum(gm, m)] msum(gm, m) == 0real && msum(drop_eps(gm), m) == 0real by { lemma_msum_empty(m); assert(drop_eps(gm) =~= Map::<u64, real>::empty()); } }
+            '''),
+                        (('after', r'let __new = Linear::new\(__l, constant\);'), '''
+            proof {
+                if %s {
+                    assert(pairs_fin(lst)) by { assert forall|j: int| 0 <= j < lst.len() implies fin((#[trigger] lst[j]).1) by { assert(linear@.contains_key(lst[j].0)); } }
+                    assert(klists(lst, lst.len() as int, gm));
+                    lemma_acc_listing(lst, lst.len() as int, gm);
+                }
+                assert forall|j: int| 0 <= j < __new.terms.len() implies gm.contains_key((#[trigger] __new.terms@[j]).id) by {
+                    let i = choose|i: int| 0 <= i < lst.len() && (#[trigger] lst[i]).0 == __new.terms[j].id; assert(linear@.contains_key(lst[i].0)); }
+            }''' % FIN),
+                        (('before', r'Ok\(used\)\s*\}\s*$'), final_proof)])
